@@ -12,7 +12,7 @@ PROP = "C08"
 LEVEL = "exploration"
 RULE = ("seeded random histories over append, prepend, extend, pre_extend, remove, pop_back, pop_front, "
         "move_to_front, move_to_back, move_after (incl. node==after), rotate(both directions), extend/pre_extend with lazy iterables that observe len(l) while consumed and may fail midway; target nodes "
-        "drawn from the model; each history is run once per payload class (distinct ints, all equal, NaN, "
+        "drawn from the model; each history is run once per payload class (distinct ints, all equal, NaN, falsy values / None, "
         "few-valued, __eq__ raising) and 'long' histories start from 1200 (quick) / 3000 (thorough) equal "
         "payloads. After every operation the oracle compares forward identity sequence, list(l), len, backward "
         "walk, head/tail ends with the model. distinct_nontrivial = distinct (payload-class, identity-order) "
@@ -25,7 +25,7 @@ NCASES = {"quick": 8000, "thorough": 120000}
 NSHARDS = 16
 SHARD_TIMEOUT = {"quick": 600, "thorough": 3600}
 
-PAYLOADS = ["distinct", "equal", "nan", "few", "raising_eq"]
+PAYLOADS = ["distinct", "equal", "nan", "few", "raising_eq", "falsy", "none"]
 OPS = ["append", "prepend", "extend", "pre_extend", "remove", "pop_back", "pop_front", "move_to_front",
        "move_to_back", "move_after", "rotate_fb", "rotate_bf", "extend_lazy", "pre_extend_lazy"]
 
@@ -58,6 +58,10 @@ def make_payload(kind, counter):
         return float("nan")
     if kind == "few":
         return counter % 2
+    if kind == "falsy":
+        return [None, 0, "", (), False, 0.0, [], None][counter % 8]
+    if kind == "none":
+        return None
     return RaisingEq(counter)
 
 
